@@ -38,6 +38,7 @@ type Case struct {
 	Repeat  int         `json:"repeat"`
 	Reader  bool        `json:"via_reader,omitempty"` // the stream comes from utils.ReadMultiTrees on a text (possibly empty) instead of the harness's producer
 	Moved   bool        `json:"moved_taxa,omitempty"` // tbe: raw tree, moved-taxa and per-branch tables in a log file
+	Tables  int         `json:"tables,omitempty"`     // with Moved: 0 = both tables, 1 = moved-taxa only, 2 = per-branch only
 }
 
 func (c Case) bad(i int) bool {
@@ -210,7 +211,7 @@ func (c Case) runPlain(threads int) (result, error) {
 			defer os.Remove(f.Name())
 			// distance cutoff 0.9: moved-taxa tables are filled for branches of depth >= 3 (with the
 			// default 0.3 only branches of depth >= 5 count, which small trees rarely have)
-			raw, err := support.TBE(rt, ch, threads, true, true, true, 0.9, f, nil)
+			raw, err := support.TBE(rt, ch, threads, true, c.Tables != 2, c.Tables != 1, 0.9, f, nil)
 			f.Close()
 			r.err = err != nil
 			if err == nil {
@@ -323,6 +324,9 @@ func genCase(t *rapid.T, thorough bool) Case {
 	}
 	c.Reader = rapid.IntRange(0, 3).Draw(t, "viareader") == 0
 	c.Moved = c.Func == "tbe" && rapid.Bool().Draw(t, "moved")
+	if c.Moved {
+		c.Tables = rapid.IntRange(0, 2).Draw(t, "tables")
+	}
 	if c.Reader && rapid.IntRange(0, 5).Draw(t, "empty") == 0 {
 		c.Trees = nil // an empty file
 		n = 0
@@ -347,7 +351,7 @@ func genCase(t *rapid.T, thorough bool) Case {
 func TestC11Threads(t *testing.T) {
 	h.Run(t, h.Spec[Case]{
 		Property: "C11", Name: "threads", Quick: 3000, Thorough: 60000, Timeout: 60 * time.Second,
-		Rule: "Compare / CompareWeighted / FBP / TBE on a reference tree and a stream of 1..40 trees (fresh parses), thread counts {2,3,4,8,16,64}, GOMAXPROCS {1,2,16}, producer goroutine pausing by a drawn pattern (Gosched / 1us / 200us), optional error record or taxon-mismatched tree first / middle / last / several (up to 12); a quarter of the streams come from utils.ReadMultiTrees on a text (one in six of those empty); TBE in half of the cases with raw tree, moved-taxa and per-branch tables in a log file (compared after masking dates and the CPU count); binary built with -race (a report ends the process: violation); every run uses tip names that no earlier run of the process has used; results compared per tree id with the 1-thread run, twice; watchdog 60 s; non-trivial = #trees >= 2*threads, or a bad record in a stream of >= 3 trees",
+		Rule: "Compare / CompareWeighted / FBP / TBE on a reference tree and a stream of 1..40 trees (fresh parses), thread counts {2,3,4,8,16,64}, GOMAXPROCS {1,2,16}, producer goroutine pausing by a drawn pattern (Gosched / 1us / 200us), optional error record or taxon-mismatched tree first / middle / last / several (up to 12); a quarter of the streams come from utils.ReadMultiTrees on a text (one in six of those empty); TBE in half of the cases with raw tree and the moved-taxa table, the per-branch table or both in a log file (compared after masking dates and the CPU count); binary built with -race (a report ends the process: violation); every run uses tip names that no earlier run of the process has used; results compared per tree id with the 1-thread run, twice; watchdog 60 s; non-trivial = #trees >= 2*threads, or a bad record in a stream of >= 3 trees",
 		Gen:   genCase,
 		Check: check,
 		Classify: func(c Case) (bool, []string) {
